@@ -254,3 +254,51 @@ def run(F, rep, tier):
                       "code_block (mech_syntax.lib)", sample={"hashed": render(arg), "definitions_followed": seen_defs})
     from rules.loopshape import scope_restored_on_every_exit
     scope_restored_on_every_exit(F, rep, "C10-R8")
+    run_r9(F, rep)
+
+
+def _stop_set(it):
+    """names of the parsers a `many0((is_not(S), any_token))` consumer stops at; None if the function is not of that shape"""
+    stops = []
+    for c in find(it["body"], "call"):
+        f = path_of(c[1])
+        if f and f.split("::")[-1] == "is_not" and c[2]:
+            arg = c[2][0]
+            names = set()
+            for n in walk(arg):
+                if n[0] == "path" and n[1].split("::")[-1] not in ("alt",):
+                    names.add(n[1].split("::")[-1])
+                elif n[0] == "call" and path_of(n[1]) and path_of(n[1]).split("::")[-1] == "tag" and n[2] and n[2][0][0] == "str":
+                    names.add(repr(n[2][0][1]))
+            stops.append(names)
+    return stops
+
+
+def run_r9(F, rep):
+    rep.rule("C10-R9", "a comment extends to the end of its line and no further: the consumer comment() applies right after comment_sigil skips tokens until new_line and "
+                      "stops at nothing else (a `;` or any other earlier stop hands the rest of the comment to the code parser, which runs it; a later stop swallows the next line)")
+    from lib.grammar import Grammar
+    G = Grammar(F.syn("mech_syntax.lib"))
+    sk = G.skeleton("comment")
+    if not rep.check(sk is not None and len(sk.steps) >= 2, "C10-R9", "anchor:comment-skeleton", "parser comment() not found or not a step sequence"):
+        return
+    names = [t[1] if t[0] == "nt" else None for _, t, _ in sk.steps]
+    sig = [i for i, (vs, t, _) in enumerate(sk.steps) if t == ("nt", "comment_sigil")]
+    if not rep.check(len(sig) == 1 and sig[0] + 1 < len(sk.steps), "C10-R9", "anchor:comment-sigil-step", "comment() does not apply comment_sigil followed by a body consumer: %s" % names):
+        return
+    body_t = sk.steps[sig[0] + 1][1]
+    rep.check(len(sk.steps) == sig[0] + 2 and sk.straight, "C10-R9", "comment:single-body-consumer",
+              "comment() applies further consuming parsers to the program text after its body consumer (%s): the comment no longer ends where its line ends" % names, "comment (mech_syntax.lib)")
+    if not rep.check(body_t[0] == "nt" and body_t[1] in G.fns, "C10-R9", "anchor:comment-body-consumer", "the body consumer of comment() is not a named parser: %s" % (body_t,)):
+        return
+    it = G.fns[body_t[1]]
+    stops = _stop_set(it)
+    ok = len(stops) == 1 and stops[0] == {"new_line"}
+    rep.check(ok, "C10-R9", "comment-body-stops-at:%s" % ("new_line" if ok else "+".join(sorted(set().union(*stops))) if stops else "nothing"),
+              "comment() reads its text with %s, which stops at %s instead of exactly new_line: text after the first other stop token inside a comment is parsed (and evaluated) as code, or the comment runs past its line" % (
+                  body_t[1], [sorted(s) for s in stops]), "comment (mech_syntax.lib)", sample={"consumer": body_t[1], "stops": [sorted(s) for s in stops]})
+    # the consumer is a pure token skipper: one many0 over (is_not(stop), any_token)
+    sk2 = G.skeleton(body_t[1])
+    rep.check(sk2 is not None and len(sk2.steps) == 1 and sk2.steps[0][1][0] == "star", "C10-R9", "comment-body-consumer-shape",
+              "%s is not a single many0((is_not(stop), any_token)) loop: %s" % (body_t[1], [s[1] for s in (sk2.steps if sk2 else [])]), "%s (mech_syntax.lib)" % body_t[1])
+    rep.floor("C10-R9", "comment body consumers analysed", 1 if stops else 0, 1)
